@@ -177,15 +177,12 @@ func vc14sEnsureIndex(t vs1T, m *test.Command) {
 }
 
 func vc14sCreateField(t vs1T, m *test.Command, name string, opts ...pilosa.FieldOption) {
-	if _, err := m.API.CreateField(context.Background(), vc14Index, name, opts...); err != nil {
-		t.Fatalf("creating field %s: %v", name, err)
-	}
+	_, err := m.API.CreateField(context.Background(), vc14Index, name, opts...)
+	vs1SetupErr(t, err, "creating field %s", name)
 }
 
 func vc14sDropField(t vs1T, m *test.Command, name string) {
-	if err := m.API.DeleteField(context.Background(), vc14Index, name); err != nil {
-		t.Fatalf("deleting field %s: %v", name, err)
-	}
+	vs1SetupErr(t, m.API.DeleteField(context.Background(), vc14Index, name), "deleting field %s", name)
 }
 
 var vc14sOrders = [][]uint64{nil, {0, 1, 2}, {2, 1, 0}, {1, 2, 0}}
